@@ -87,7 +87,10 @@ where
         + CKKSEncrypt<BE>
         + CKKSMulOps<BE>
         + CKKSAllOpsTmpBytes<BE>
-        + poulpy_core::GLWETensoring<BE>,
+        + poulpy_core::GLWETensoring<BE>
+        + poulpy_core::GLWEShift<BE>
+        + poulpy_ckks::leveled::api::CKKSRescaleOps<BE>
+        + poulpy_ckks::leveled::api::CKKSRotateOps<BE>,
     ScratchOwned<BE>: ScratchOwnedAlloc<BE> + ScratchOwnedBorrow<BE>,
     Scratch<BE>: ScratchAvailable + ScratchTakeCore<BE>,
 {
@@ -289,6 +292,98 @@ where
                 return format!("tensor={}", show(tensor.data().raw()));
             }
             out_glwe(&res)
+        }
+        "ckks_prog" => {
+            // CKKS program: encrypt two vectors, multiply, rescale, rotate — every intermediate ciphertext is hashed
+            use poulpy_ckks::{CKKSInfos, leveled::api::{CKKSRescaleOps, CKKSRotateOps}};
+            use poulpy_core::layouts::{GLWEAutomorphismKeyPrepared, LWEInfos};
+            use poulpy_hal::layouts::{DeviceBuf, GaloisElement};
+            use std::collections::HashMap;
+            let prec = CKKSMeta {
+                log_delta: (2 * b) as _,
+                log_budget: b as _,
+            };
+            let ct_k = 6 * b;
+            let layout = EncryptionLayout::new_from_default_sigma(GLWELayout {
+                n: n.into(),
+                base2k: b.into(),
+                k: ct_k.into(),
+                rank: Rank(1),
+            })
+            .unwrap();
+            let kk = ct_k + dsize * b;
+            let tsk_layout = EncryptionLayout::new_from_default_sigma(GLWETensorKeyLayout {
+                n: n.into(),
+                base2k: b.into(),
+                k: kk.into(),
+                rank: Rank(1),
+                dsize: dsize.into(),
+                dnum: ct_k.div_ceil(dsize * b).into(),
+            })
+            .unwrap();
+            let atk_layout = EncryptionLayout::new_from_default_sigma(GLWEAutomorphismKeyLayout {
+                n: n.into(),
+                base2k: b.into(),
+                k: kk.into(),
+                rank: Rank(1),
+                dsize: dsize.into(),
+                dnum: ct_k.div_ceil(dsize * b).into(),
+            })
+            .unwrap();
+            let mut sk1: GLWESecret<Vec<u8>> = GLWESecret::alloc_from_infos(&layout);
+            sk1.fill_ternary_prob(0.5, &mut source_xs);
+            let mut sk1p = module.glwe_secret_prepared_alloc_from_infos(&layout);
+            module.glwe_secret_prepare(&mut sk1p, &sk1);
+            let mut scr: ScratchOwned<BE> = ScratchOwned::alloc(1 << 25);
+            let mut tsk = GLWETensorKey::alloc_from_infos(&tsk_layout);
+            module.glwe_tensor_key_encrypt_sk(&mut tsk, &sk1, &tsk_layout, &mut source_xa, &mut source_xe, scr.borrow());
+            let mut tsk_prep = module.alloc_tensor_key_prepared_from_infos(&tsk_layout);
+            module.prepare_tensor_key(&mut tsk_prep, &tsk, scr.borrow());
+            let rotk: i64 = if r.get("rot").is_some() { r.i64("rot") } else { 1 };
+            let mut rot: HashMap<i64, GLWEAutomorphismKeyPrepared<DeviceBuf<BE>, BE>> = HashMap::new();
+            {
+                let gal = module.galois_element(rotk);
+                let mut atk = GLWEAutomorphismKey::alloc_from_infos(&atk_layout);
+                module.glwe_automorphism_key_encrypt_sk(&mut atk, gal, &sk1, &atk_layout, &mut source_xa, &mut source_xe, scr.borrow());
+                let mut pk = module.glwe_automorphism_key_prepared_alloc_from_infos(&atk_layout);
+                module.glwe_automorphism_key_prepare(&mut pk, &atk, scr.borrow());
+                rot.insert(rotk, pk);
+            }
+            let mut enc = |rng: &mut Sm, sxa: &mut Source, sxe: &mut Source, scr: &mut ScratchOwned<BE>| -> CKKSCiphertext<Vec<u8>> {
+                let mut ptz = CKKSPlaintextVecZnx::alloc(n.into(), b.into(), prec);
+                for x in ptz.data_mut().raw_mut().iter_mut() {
+                    *x = rng.val("norm", b);
+                }
+                let mut c = CKKSCiphertext::alloc(n.into(), ct_k.into(), b.into());
+                module.ckks_encrypt_sk(&mut c, &ptz, &sk1p, &layout, sxa, sxe, scr.borrow()).unwrap();
+                c
+            };
+            let c1 = enc(&mut rng, &mut source_xa, &mut source_xe, &mut scr);
+            let c2 = enc(&mut rng, &mut source_xa, &mut source_xe, &mut scr);
+            let mut out: Vec<String> = Vec::new();
+            let mut hash = |tag: &str, c: &CKKSCiphertext<Vec<u8>>, out: &mut Vec<String>| {
+                let g: &GLWE<Vec<u8>> = c;
+                let mut bytes: Vec<u8> = Vec::new();
+                g.write_to(&mut bytes).unwrap();
+                out.push(format!("{tag}:{:016x}:{}:{}.{}", fnv(&bytes), g.size(), c.log_delta(), c.log_budget()));
+            };
+            let mut m = CKKSCiphertext::alloc(n.into(), ct_k.into(), b.into());
+            if module.ckks_mul_into(&mut m, &c1, &c2, &tsk_prep, scr.borrow()).is_err() {
+                return "err:mul".to_string();
+            }
+            hash("mul", &m, &mut out);
+            let mut rs = CKKSCiphertext::alloc(n.into(), ct_k.into(), b.into());
+            match module.ckks_rescale_into(&mut rs, r.usize("rs").max(1), &m, scr.borrow()) {
+                Ok(()) => hash("rescale", &rs, &mut out),
+                Err(_) => out.push("rescale:err".to_string()),
+            }
+            let mut ro = CKKSCiphertext::alloc(n.into(), ct_k.into(), b.into());
+            match module.ckks_rotate_into(&mut ro, &m, rotk, &rot, scr.borrow()) {
+                Ok(()) => hash("rotate", &ro, &mut out),
+                Err(_) => out.push("rotate:err".to_string()),
+            }
+            let g: &GLWE<Vec<u8>> = &ro;
+            format!("{} limbs={}", out.join(" "), show(g.data().raw()))
         }
         "ckks_square" | "ckks_mul" => {
             // rank-1 CKKS: encrypt two quantised plaintexts, multiply (tensor + relinearise + rescale)
